@@ -73,35 +73,42 @@ Lemma rread_spec r L n e r' :
   (e = REOF -> rpos r' = rtotal r) /\
   (e = RFail -> has_err_ev (rscript r)) /\
   (forall x, In x (rscript r') -> In x (rscript r)) /\
-  (length (rscript r') < length (rscript r) \/
+  ((length (rscript r') < length (rscript r))%nat \/
    rscript r = [] /\ rscript r' = [] /\ e <> RFail /\
-   (0 < L -> (n = 0 -> e = REOF) /\ (e = RNil -> n = N.min L (rtotal r - rpos r))))%nat.
+   (0 < L -> (n = 0 -> e = REOF) /\ (e = RNil -> n = N.min L (rtotal r - rpos r)))).
 Proof.
   unfold rread. intros H Hle. destruct r as [p t sc]; cbn [rpos rtotal rscript] in *.
   destruct sc as [|[k eo|k] sc].
   - destruct (N.eqb_spec (N.min L (t - p)) 0) as [E|E].
     + inversion H; subst; clear H. cbn [rpos rtotal rscript].
-      repeat split; try lia; try (intros; discriminate); auto.
-      * destruct (N.eqb_spec (t - p) 0); intros; [lia|discriminate].
-      * right. repeat split; auto.
-        -- destruct (t - p =? 0); discriminate.
-        -- intros _. destruct (N.eqb_spec (t - p) 0); [reflexivity|lia].
-        -- intros. lia.
+      split; [lia|]. split; [lia|]. split; [lia|]. split; [reflexivity|].
+      split. { destruct (N.eqb_spec (t - p) 0); intros; [lia|discriminate]. }
+      split. { destruct (t - p =? 0); discriminate. }
+      split. { auto. }
+      right. split; [reflexivity|]. split; [reflexivity|].
+      split. { destruct (t - p =? 0); discriminate. }
+      intros HL. split.
+      * intros _. destruct (N.eqb_spec (t - p) 0); [reflexivity|lia].
+      * intros _. lia.
     + inversion H; subst; clear H. cbn [rpos rtotal rscript].
-      repeat split; try lia; try (intros; discriminate); auto.
-      right. repeat split; auto; try discriminate; intros; lia.
+      split; [lia|]. split; [lia|]. split; [lia|]. split; [reflexivity|].
+      split; [discriminate|]. split; [discriminate|]. split; [auto|].
+      right. split; [reflexivity|]. split; [reflexivity|]. split; [discriminate|].
+      intros HL. split; [intros; lia|reflexivity].
   - inversion H; subst; clear H. cbn [rpos rtotal rscript].
-    repeat split; try lia.
-    + destruct eo; cbn [andb]; [|discriminate].
-      destruct (N.eqb_spec (p + N.min k (N.min L (t - p))) t); [auto|discriminate].
-    + destruct (eo && _); discriminate.
-    + intros x Hx. right. exact Hx.
-    + left. cbn [length]. lia.
+    split; [lia|]. split; [lia|]. split; [lia|]. split; [reflexivity|].
+    split.
+    { destruct eo; cbn [andb]; [|discriminate].
+      destruct (N.eqb_spec (p + N.min k (N.min L (t - p))) t); [auto|discriminate]. }
+    split. { destruct (eo && _); discriminate. }
+    split. { intros x Hx. right. exact Hx. }
+    left. cbn [length]. lia.
   - inversion H; subst; clear H. cbn [rpos rtotal rscript].
-    repeat split; try lia; try (intros; discriminate).
-    + intros _. exists k. left. reflexivity.
-    + intros x Hx. right. exact Hx.
-    + left. cbn [length]. lia.
+    split; [lia|]. split; [lia|]. split; [lia|]. split; [reflexivity|].
+    split; [discriminate|].
+    split. { intros _. exists k. left. reflexivity. }
+    split. { intros x Hx. right. exact Hx. }
+    left. cbn [length]. lia.
 Qed.
 
 (* ------------------------------------------------------------------ invariants *)
@@ -160,10 +167,7 @@ Proof.
        rpos rtotal app tl rev flat_map].
   rewrite fold_left_caps.
   repeat split; try lia; auto.
-  - repeat constructor. cbn. lia.
-  - constructor.
-  - right. lia.
-  - intros _. lia.
+  all: try (repeat constructor; cbn; lia).
 Qed.
 
 (* ------------------------------------------------------------------ one iteration *)
@@ -203,9 +207,9 @@ Lemma read_into_spec s r :
   | Cont s' r' => linv s' r' /\ maxSize s' = maxSize s /\ rtotal r' = rtotal r /\
                   nslots s' = nslots s /\ length (ext s') = length (ext s) /\
                   (forall x, In x (rscript r') -> In x (rscript r)) /\
-                  (length (rscript r') < length (rscript r) \/
+                  ((length (rscript r') < length (rscript r))%nat \/
                    rscript r = [] /\ rscript r' = [] /\
-                   (blen (cur s') = bcap (cur s') \/ rpos r < rtotal r /\ rpos r' = rtotal r'))%nat
+                   (blen (cur s') = bcap (cur s') \/ rpos r < rtotal r /\ rpos r' = rtotal r'))
   | Done o s' r' => post s r o s' r' /\ o <> ROutOfFuel
   end.
 Proof.
